@@ -158,7 +158,7 @@ def run_sthdrive(hist_paths, wd, shards=NCPU, extra_args=()):
     return terms, recs
 
 
-CASES_HEADER = ("From STH Require Import Lex Index Index2 Index3 Store Check Translate Crash Replay.\n"
+CASES_HEADER = ("From STH Require Import Lex Index Index2 Index3 Store Check Translate Crash Budget Replay.\n"
                 "From Coq Require Import List NArith. Import ListNotations. Open Scope N_scope.\n")
 
 def coq_replay(terms, wd, shards=NCPU, header=CASES_HEADER, ctor_list="case5", fn="mismatches5"):
